@@ -94,7 +94,7 @@ def gen_cases(rng, n):
         s = ",".join(segs)
         # Targets only knows `target[{fields}]=level`; any other bracket form is EnvFilter-only syntax
         tv = any("[" in g and not TFORM.match(g) for g in segs)
-        cases.append({"id": i, "s": s, "dirs": dirs, "tv": tv, "script": rand_script(rng)})
+        cases.append({"id": i, "s": s, "dirs": dirs, "tv": tv, "x": rng.randint(0, 5), "script": rand_script(rng)})
     return cases
 
 
@@ -103,7 +103,7 @@ ODD = ["a[{k,j}]=info", "[{k,j}]=trace", "a=info,,b=warn,", ",", "a::b=", "A=INF
 
 
 def odd_cases():
-    return [{"id": -1, "s": s, "dirs": [], "tv": True, "odd": True, "script": []} for s in ODD]
+    return [{"id": -1, "s": s, "dirs": [], "tv": True, "odd": True, "x": 3, "script": []} for s in ODD]
 
 
 def execute(cases, name, nchunks=8):
